@@ -111,6 +111,15 @@ def _run_group_in(name, outdir, rlimit=None, canary_calls=None, timeout=600):
         res['stubbed'] = list(stub)
         culprits = [u for u in res.pop('culprits', []) if u not in stub]
         if res['status'] == 'undecided' and res.get('soft') and culprits:
+            # units extracted from the same source function (the instances of a macro-generated function, R12) share its fate
+            try:
+                us = extract.load_group(name)['units']
+                src = lambda u: (u.get('file'), u.get('fn'), u.get('ctx'), u.get('nth', 0))
+                keys = set(src(u) for u in us if u['id'] in culprits and u.get('fn'))
+                culprits += [u['id'] for u in us if u.get('fn') and src(u) in keys and u['id'] not in culprits and u['id'] not in stub
+                             and u.get('mode') not in ('contract_only', 'assumed')]
+            except Exception:
+                pass
             stub.extend(culprits)
             reasons.append('%s: %s' % (', '.join(culprits), res.get('reason', '')[:240]))
             continue
